@@ -754,8 +754,9 @@ class Fxp():
         _val = val
         val = np.array(val)
 
-        if val.dtype.kind == 'f' and isinstance(_val, (list, tuple)):
-            # a list of python integers that don't fit all in int64 (or uint64) is converted to float64 by numpy
+        if val.dtype.kind in 'fu' and isinstance(_val, (list, tuple)):
+            # a list of python integers that don't fit all in int64 is converted to float64 or to uint64 by numpy:
+            # keep them as python integers (float64 loses bits, uint64 wraps around when it is scaled)
             _val = np.array(_val, dtype=object)
             if all(isinstance(v, int) for v in _val.ravel()):
                 val = _val
